@@ -48,6 +48,9 @@ pub struct World {
     pub gz_edges: bool,
     pub gz_vertices: bool,
     pub gz_tables: bool,
+    /// gzip files are named without the .gz suffix (content sniffing has to find out)
+    #[serde(default)]
+    pub gz_misnamed: bool,
     /// column order of the vertex file, may contain extra columns
     pub vertex_cols: Vec<String>,
     pub explicit_counts: bool,
@@ -202,6 +205,7 @@ impl World {
             gz_edges: r.chance(0.3),
             gz_vertices: r.chance(0.3),
             gz_tables: r.chance(0.3),
+            gz_misnamed: false,
             vertex_cols,
             explicit_counts: r.chance(0.3),
             traversal: Traversal::Distance { unit: "kilometers".into() },
@@ -219,13 +223,16 @@ impl World {
     }
 
     pub fn edges_path(&self) -> String {
-        if self.gz_edges { "/sim/edges.csv.gz".into() } else { "/sim/edges.csv".into() }
+        if self.gz_edges && !self.gz_misnamed { "/sim/edges.csv.gz".into() } else { "/sim/edges.csv".into() }
     }
     pub fn vertices_path(&self) -> String {
-        if self.gz_vertices { "/sim/vertices.csv.gz".into() } else { "/sim/vertices.csv".into() }
+        if self.gz_vertices && !self.gz_misnamed { "/sim/vertices.csv.gz".into() } else { "/sim/vertices.csv".into() }
     }
     fn table_path(&self, stem: &str) -> String {
-        if self.gz_tables { format!("/sim/{}.txt.gz", stem) } else { format!("/sim/{}.txt", stem) }
+        if self.gz_tables && !self.gz_misnamed { format!("/sim/{}.txt.gz", stem) } else { format!("/sim/{}.txt", stem) }
+    }
+    pub fn table_path_pub(&self, stem: &str) -> String {
+        self.table_path(stem)
     }
     pub fn out_path(&self) -> String {
         match &self.out {
